@@ -80,8 +80,31 @@ func (s *Session) call(fr *Frame, cc *ssa.CallCommon, st *State, instr *ssa.Call
 	if fr.top && fr.contract != nil && len(fr.contract.Interf) > 0 {
 		s.interfere(fr, cc, st, instr)
 	}
+	if fr.top && instr != nil {
+		if n := calleeName(cc); n != "" {
+			s.ensureCallSites(fr)
+			fr.curSite = fmt.Sprintf("%s#%d", n, fr.callSites[instr])
+			fr.curInstr = instr
+		}
+	}
 	fr.curMode = ""
+	if s.topContract != nil && len(s.topContract.Modes) > 0 && !fr.top {
+		// `at NAME * mode M`: every call of NAME, also inside inlined callees
+		if n := calleeName(cc); n != "" {
+			if m, ok := s.topContract.Modes[n+"#*"]; ok {
+				fr.curMode = m
+				defer func() { fr.curMode = "" }()
+			}
+		}
+	}
 	if fr.top && fr.contract != nil && len(fr.contract.Modes) > 0 && instr != nil {
+		if n := calleeName(cc); n != "" {
+			if m, ok := fr.contract.Modes[n+"#*"]; ok {
+				fr.curMode = m
+			}
+		}
+	}
+	if fr.top && fr.contract != nil && len(fr.contract.Modes) > 0 && instr != nil && fr.curMode == "" {
 		if n := calleeName(cc); n != "" {
 			s.ensureCallSites(fr)
 			fr.curMode = fr.contract.Modes[fmt.Sprintf("%s#%d", n, fr.callSites[instr])]
@@ -456,6 +479,13 @@ func (s *Session) applyContract(fr *Frame, c *Contract, fn *ssa.Function, sig *t
 	se := &SpecEnv{sess: s, pkg: pkgT, vars: env, st: st, old: st}
 	mode := fr.curMode
 	fr.curMode = ""
+	if i := strings.Index(mode, "@"); i >= 0 {
+		if s.runMode == mode[i+1:] {
+			mode = mode[:i]
+		} else {
+			mode = ""
+		}
+	}
 	for i, rq := range c.Requires {
 		if rq.Mode != "" && rq.Mode != mode {
 			continue
